@@ -8,6 +8,7 @@ import (
 	"errors"
 	"fmt"
 	"net"
+	"net/http"
 	"strings"
 	"sync"
 	"testing"
@@ -58,8 +59,8 @@ func toResult(w dnsfx.RefOutcome) ech.ResolveResult {
 
 func TestC17(t *testing.T) {
 	rec := ev.Get("C17")
-	rec.Rule("zones (service records with/without ech, several targets, aliases, CNAMEs; C14 generators) behind the loopback DoH server; address forms host, host:port, comma-separated lists, IP literals; Dialer{RequireECH, PublicName, MaxConcurrency 1..3}; caller tls.Config nil / with ServerName / with an ECH config list / with other fields; scripted DialFunc outcomes per address {ok, error, ECH rejection with retry configs, without, rejection twice}. Oracle: invariants over the DialFunc call log - never a nil ECH list under RequireECH; caller list and ServerName never replaced; otherwise ServerName = host the caller wrote and the list = ech of the HTTPS record the reference Targets attributes the address to (or the PublicName bootstrap config, or nil); a rejection with retry configs causes exactly one more call to the same address with exactly those configs; caller's tls.Config unchanged. distinct = (zone shape, options, outcome script); non-trivial = 2+ targets or a rejection outcome")
-	rec.Mandatory("require_ech_record_without_ech", "alias_and_target_names", "retry", "caller_list_and_record_list", "public_name_bootstrap", "caller_server_name", "multi_host_list", "rejection_without_configs", "rejection_twice")
+	rec.Rule("zones (service records with/without ech, several targets, aliases, CNAMEs; C14 generators) behind the loopback DoH server; address forms host, host:port, comma-separated lists, IP literals; Dialer{RequireECH, PublicName, MaxConcurrency 1..3}; caller tls.Config nil / with ServerName / with an ECH config list / with other fields; in a third of the single-entry cases the Dialer is driven through Transport.RoundTrip (https URL, Transport.TLSConfig = the caller config) instead of Dial; scripted DialFunc outcomes per address {ok, error, ECH rejection with retry configs, without, rejection twice}. Oracle: invariants over the DialFunc call log - never a nil or empty ECH list under RequireECH; caller list and ServerName never replaced; otherwise ServerName = host the caller wrote and the list = ech of the HTTPS record the reference Targets attributes the address to (or the PublicName bootstrap config, or nil); a rejection with retry configs causes exactly one more call to the same address with exactly those configs; caller's tls.Config unchanged. distinct = (zone shape, options, outcome script); non-trivial = 2+ targets or a rejection outcome")
+	rec.Mandatory("require_ech_record_without_ech", "alias_and_target_names", "retry", "caller_list_and_record_list", "public_name_bootstrap", "caller_server_name", "multi_host_list", "rejection_without_configs", "rejection_twice", "via_transport")
 	rapid.Check(t, func(t *rapid.T) {
 		z := dnsfx.NewZone()
 		z.Version = 1
@@ -130,6 +131,12 @@ func TestC17(t *testing.T) {
 		delete(z.AAAA, "t1.example")
 		delete(z.AAAA, "t2.example")
 		addrArg := strings.Join(entries, rapid.SampledFrom([]string{",", ", "}).Draw(t, "sep"))
+		// the same Dialer as used by Transport: the resolution result (filtered to the records
+		// usable over TCP, cloned) reaches Dial through the request context
+		viaTransport := len(entries) == 1 && rapid.IntRange(0, 2).Draw(t, "via_transport") == 0
+		if viaTransport {
+			cl = append(cl, "via_transport")
+		}
 		// options
 		d := &ech.Dialer[*fakeConn]{RequireECH: rapid.Bool().Draw(t, "require_ech"), MaxConcurrency: rapid.IntRange(1, 3).Draw(t, "maxconc"), ConcurrencyDelay: time.Millisecond, Timeout: 5 * time.Second}
 		if rapid.IntRange(0, 2).Draw(t, "public_name") == 0 {
@@ -175,6 +182,15 @@ func TestC17(t *testing.T) {
 			host := e
 			if h, _, err := net.SplitHostPort(e); err == nil {
 				host = h
+			}
+			if viaTransport {
+				var keep []dns.HTTPS
+				for _, h := range w.HTTPS {
+					if h.Priority > 0 && usableTCP(h) {
+						keep = append(keep, h)
+					}
+				}
+				w.HTTPS = keep
 			}
 			for _, tg := range dnsfx.RefTargets(toResult(w), "tcp") {
 				exp[tg.Addr.String()] = expect{host: host, ech: tg.ECH, rec: tg.Rec}
@@ -230,7 +246,7 @@ func TestC17(t *testing.T) {
 		for _, a := range dnsfx.SortedKeys(expKeys) {
 			outcomes[a] = rapid.SampledFrom([]string{"ok", "error", "error", "reject_retry", "reject_noconfigs", "reject_twice"}).Draw(t, "outcome_"+a)
 		}
-		rp := map[string]any{"addr": addrArg, "zone": z.Describe(), "require_ech": d.RequireECH, "public_name": d.PublicName, "caller_list": callerList != nil, "caller_server_name": tc != nil && tc.ServerName != "", "outcomes": outcomes}
+		rp := map[string]any{"via_transport": viaTransport, "addr": addrArg, "zone": z.Describe(), "require_ech": d.RequireECH, "public_name": d.PublicName, "caller_list": callerList != nil, "caller_server_name": tc != nil && tc.ServerName != "", "outcomes": outcomes}
 		var derr error
 		withZoneServer(z, nil, func(url string, srv *dnsfx.Server) {
 			r, err := ech.NewResolver(url)
@@ -241,7 +257,32 @@ func TestC17(t *testing.T) {
 			d.Resolver = r
 			ctx, cancel := context.WithTimeout(context.Background(), 30*time.Second)
 			defer cancel()
-			derr = guard(func() error { _, e := d.Dial(ctx, "tcp", addrArg, tc); return e })
+			if viaTransport {
+				dt := &ech.Dialer[*tls.Conn]{RequireECH: d.RequireECH, PublicName: d.PublicName, MaxConcurrency: d.MaxConcurrency, ConcurrencyDelay: d.ConcurrencyDelay, Timeout: d.Timeout}
+				dt.DialFunc = func(ctx context.Context, network, addr string, c *tls.Config) (*tls.Conn, error) {
+					if _, e := d.DialFunc(ctx, network, addr, c); e != nil {
+						return nil, e
+					}
+					return nil, errors.New("scripted success: no real connection in this mode")
+				}
+				tr := ech.NewTransport()
+				tr.Resolver, tr.Dialer, tr.TLSConfig = r, dt, tc
+				req, e := http.NewRequestWithContext(ctx, "GET", "https://"+entries[0]+"/", nil)
+				if e != nil {
+					t.Fatalf("harness: %v", e)
+				}
+				derr = guard(func() error {
+					resp, e := tr.RoundTrip(req)
+					if e == nil {
+						resp.Body.Close()
+						return nil
+					}
+					return e
+				})
+				tr.HTTPTransport.CloseIdleConnections()
+			} else {
+				derr = guard(func() error { _, e := d.Dial(ctx, "tcp", addrArg, tc); return e })
+			}
 			// let late workers finish
 			time.Sleep(5 * time.Millisecond)
 		})
@@ -268,8 +309,8 @@ func TestC17(t *testing.T) {
 			first := l[0]
 			// (a)
 			for _, c := range l {
-				if d.RequireECH && c.ECHNil {
-					ev.Violation(t, "C17", rp, "RequireECH is set but %s was dialed without an ECH config list", addr)
+				if d.RequireECH && len(c.ECH) == 0 {
+					ev.Violation(t, "C17", rp, "RequireECH is set but %s was dialed without an ECH config list (nil=%v, %d bytes)", addr, c.ECHNil, len(c.ECH))
 				}
 				// (c) server name
 				wantSNI := e.host
@@ -304,7 +345,7 @@ func TestC17(t *testing.T) {
 				cl = append(cl, "public_name_bootstrap")
 			default:
 				if !first.ECHNil {
-					ev.Violation(t, "C17", rp, "%s was dialed with ECH list %q although neither the caller, nor DNS, nor PublicName provides one", addr, first.ECH)
+					ev.Violation(t, "C17", rp, "%s was dialed with a non-nil ECH list %q (%d bytes) although neither the caller, nor DNS, nor PublicName provides one", addr, first.ECH, len(first.ECH))
 				}
 			}
 			// (e) retries
